@@ -1169,6 +1169,10 @@ class PandasModelBase(
             ]
             # capture the record keys
             sk = split[0][blocks_in.record_keys]
+            # rows are matched by position below: every block must hold the same records
+            for si in split:
+                if not si[blocks_in.record_keys].equals(sk):
+                    raise ValueError("blocks do not all hold the same record keys")
         # limit and rename columns
 
         def limit_and_rename_cols(s):
